@@ -277,6 +277,12 @@ func parsePrimaryExpression(tokens []string) (*ExprNode, []string, error) {
 		}, tokens[1:], nil
 	}
 
+	// Handle a CASE expression in operand position (nested in arithmetic, a comparison,
+	// a function argument or another CASE); it ends at its own END
+	if strings.ToUpper(token) == "CASE" {
+		return parseCaseExpression(tokens)
+	}
+
 	// Handle function calls
 	if len(tokens) > 1 && tokens[1] == "(" {
 		return parseFunctionCall(tokens)
